@@ -152,7 +152,8 @@ def main(argv):
         sch = mod.chunks("search", seed + 7919)
         agg2 = core.run_chunks(mod.__name__, sch)
         searched = agg2["n"]
-        oracle = [r for r in agg2["fail"] if r["verdict"]["status"] == "oracle"]
+        # (a listed known finding met again during the search is not the failing input looked for)
+        oracle = [r for r in agg2["fail"] if r["verdict"]["status"] == "oracle" and "known" not in r]
 
     rc = 0
     nviol = 0
